@@ -4,6 +4,7 @@ import (
 	"verifharness/sim"
 	"verifharness/worlds/kv"
 	"verifharness/worlds/lock"
+	"verifharness/worlds/lru"
 	"verifharness/worlds/timer"
 )
 
@@ -16,4 +17,5 @@ var worlds = map[string]worldDef{
 	"timer": {New: timer.New, Generate: timer.Generate},
 	"lock":  {New: lock.New, Generate: lock.Generate},
 	"kv":    {New: kv.New, Generate: kv.Generate},
+	"lru":   {New: lru.New, Generate: lru.Generate},
 }
